@@ -62,7 +62,7 @@ pub fn run_steps(steps: &[Value], cfg: &ModelRunCfg, scratch: &Path) -> Vec<Step
         use_shim: cfg.use_shim,
     };
     let mut round = 0;
-    while !pending.is_empty() && round < 64 {
+    while !pending.is_empty() && round < 64 && crate::orch::harness_errors().is_empty() {
         round += 1;
         let jobs: Vec<(usize, Value)> = pending
             .iter()
@@ -132,6 +132,7 @@ pub fn run_steps(steps: &[Value], cfg: &ModelRunCfg, scratch: &Path) -> Vec<Step
                 }
                 None => {
                     for i in idxs {
+                        crate::orch::note_harness_error("job lost by the orchestrator");
                         out[*i] = Some(StepOutcome::Abort("job lost by the orchestrator".into()));
                     }
                 }
